@@ -63,7 +63,7 @@ fn run(a: &vhcore::Args) -> i32 {
         &plan,
         "c09",
         env_usize("VH_C09_BATCH", 120),
-        env_usize("VH_C09_BUDGET_S", 660) as u64,
+        env_usize("VH_C09_BUDGET_S", if thorough { 660 } else { 70 }) as u64,
         &mut |c, r, release| {
             outcomes.add(&format!("{:?}", r.outcome));
             if release {
